@@ -152,6 +152,7 @@ class SuccessionDiagram:
     def __getstate__(self) -> SuccessionDiagramState:
         return {
             "network_rules": self.network.to_aeon(),
+            "network_variables": self.network.variable_names(),
             "petri_net": self.petri_net,
             "nfvs": self.nfvs,
             "dag": self.dag,
@@ -162,6 +163,26 @@ class SuccessionDiagram:
     def __setstate__(self, state: SuccessionDiagramState):
         # In theory, the network should be cleaned-up at this point, but just in case...
         self.network = cleanup_network(BooleanNetwork.from_aeon(state["network_rules"]))
+        # The `.aeon` format sorts variables by name. Node keys (`node_indices`) and the
+        # order of successors depend on variable indices, so if the original network
+        # used a different variable order, it has to be restored.
+        variables = state.get("network_variables")
+        if variables is not None and variables != self.network.variable_names():
+            reordered = BooleanNetwork(variables)
+            for regulation in self.network.regulations():
+                reordered.add_regulation(
+                    {
+                        "source": self.network.get_variable_name(regulation["source"]),
+                        "target": self.network.get_variable_name(regulation["target"]),
+                        "sign": regulation["sign"],
+                        "essential": regulation["essential"],
+                    }
+                )
+            for name in variables:
+                update = self.network.get_update_function(name)
+                if update is not None:
+                    reordered.set_update_function(name, str(update))
+            self.network = cleanup_network(reordered)
         self.symbolic = AsynchronousGraph(self.network)
         self.petri_net = state["petri_net"]
         self.nfvs = state["nfvs"]
